@@ -189,6 +189,15 @@ pub fn child_main(args: &[String]) -> i32 {
 	let dir = std::path::PathBuf::from(&args[0]);
 	let seed: u64 = args[1].parse().unwrap();
 	let sc = scenario(seed);
+	// go away when the parent is gone, whatever the main thread is doing (with a defect in the library it may sit in
+	// a commit call for ever)
+	let parent = unsafe { libc::getppid() };
+	std::thread::spawn(move || loop {
+		std::thread::sleep(std::time::Duration::from_millis(200));
+		if unsafe { libc::getppid() } != parent {
+			std::process::exit(0);
+		}
+	});
 	let db = Arc::new(Db::open_or_create(&options(&dir, &sc)).expect("create"));
 	let (list, f, bytes) = run_clients(&db, sc);
 	use std::io::Write;
@@ -201,13 +210,9 @@ pub fn child_main(args: &[String]) -> i32 {
 	}
 	let _ = writeln!(o, "done {bytes}");
 	let _ = o.flush();
-	// no further call into the library; go away when the parent is gone
-	let parent = unsafe { libc::getppid() };
+	// no further call into the library (the thread above ends the process when the parent is gone)
 	loop {
-		std::thread::sleep(std::time::Duration::from_millis(200));
-		if unsafe { libc::getppid() } != parent {
-			std::process::exit(0);
-		}
+		std::thread::sleep(std::time::Duration::from_millis(1000));
 	}
 }
 
